@@ -375,6 +375,49 @@ func (c *chain) proofOp(tr *fx.Trace, height int64, rid uint64, count bool) {
 	tr.Op(m)
 }
 
+// multiProofOp asks for ONE proof of several results (MultiProof).  Every item is written as its own `proof` line — the
+// shared block relay part plus that item's data proof, next to the raw store proof of that item's key — so that the driver
+// judges each exactly like a single proof; the EVM bytes are decoded per item as well.
+func (c *chain) multiProofOp(tr *fx.Trace, height int64, rids []uint64) {
+	header, commit, vals := c.headerOut(height)
+	resp, err := c.server(height).MultiProof(context.Background(), &proof.MultiProofRequest{RequestIds: rids})
+	var evms []fx.M
+	var eerr error
+	if err == nil {
+		evms, eerr = evmOutMulti(resp.Result.EvmProofBytes)
+		if eerr == nil && len(evms) != len(rids) {
+			eerr = fmt.Errorf("evm proof carries %d data proofs for %d ids", len(evms), len(rids))
+		}
+	}
+	for i, rid := range rids {
+		m := fx.M{"op": "proof", "height": fx.I(height), "header": header, "commit": commit, "vals": vals, "stores": c.storesAt(height - 1),
+			"kind": "result", "rid": fx.U(rid), "multi": len(rids), "item": i}
+		m["iavl"], m["msep"] = c.rawProofs(oracletypes.ResultStoreKey(oracletypes.RequestID(rid)), height-1)
+		out := fx.M{}
+		if err != nil {
+			out["err"] = err.Error()
+		} else {
+			p := resp.Result.Proof
+			out = relayOut(p.BlockRelayProof)
+			d := p.OracleDataMultiProof[i]
+			out["result"] = hx(oracletypes.ModuleCdc.MustMarshal(&d.Result))
+			out["resultRid"] = fx.U(uint64(d.Result.RequestID))
+			out["version"] = fx.U(d.Version)
+			out["paths"] = pathsOut(d.MerklePaths)
+			out["blockHeight"] = fx.U(p.BlockHeight)
+			out["err"] = ""
+			if eerr != nil {
+				out["evm"] = fx.M{"err": eerr.Error()}
+			} else {
+				evms[i]["err"] = ""
+				out["evm"] = evms[i]
+			}
+		}
+		m["out"] = out
+		tr.Op(m)
+	}
+}
+
 func runCase(app *fx.App, tr *fx.Trace, r *fx.Rng, c *chain) {
 	tr.Reset(fx.M{"chainID": hx([]byte(c.chainID))})
 	nb := r.Range(2, 6)
@@ -398,6 +441,21 @@ func runCase(app *fx.App, tr *fx.Trace, r *fx.Rng, c *chain) {
 			continue
 		}
 		c.proofOp(tr, h, rid, false)
+	}
+	// one proof for several results written in different blocks (they carry different IAVL versions), in any order
+	if len(c.results) >= 2 {
+		h := c.height
+		var rids []uint64
+		for _, k := range r.Perm(len(c.results)) {
+			rid := c.results[k]
+			if iavl, _ := c.rawProofs(oracletypes.ResultStoreKey(oracletypes.RequestID(rid)), h-1); iavl != nil && len(rids) < 4 {
+				rids = append(rids, rid)
+			}
+		}
+		if len(rids) >= 2 {
+			c.multiProofOp(tr, h, rids)
+			tr.Tag("multi-proof")
+		}
 	}
 }
 
